@@ -6,10 +6,14 @@
    Proofs/C05P.v (`nonzero_denominators`), Proofs/C04R.v (`Rops`, `dom`, `set_var`).
    Session 3 added (clause audit: notes/C04_C05.md): Proofs/C05X.v -- the whole gradient by seeding
    every variable in turn = the reverse-mode entries, independent inputs give 0; Proofs/C05XI.v --
-   the analytic theorem over `Rops_i` / `dom_i` (Proofs/C04RI.v: natural-number powers at any base). *)
+   the analytic theorem over `Rops_i` / `dom_i` (Proofs/C04RI.v: natural-number powers at any base).
+   Wave 2 added: Proofs/C05XZ.v -- the analytic theorem over `Rops_z` / `dom_z` (Proofs/C04RZ.v: EVERY
+   integer power -- x^n, 1 / x^n -- at any base without a pole, for trace ^ number and trace ^
+   constant-trace).  The correspondence hands the items of every Sum to `impl Sum for Trace`
+   through 16 iterator shapes (harness/src/c04/prog.rs `sum_shaped`; round-4 seed C05-v1). *)
 From Coq Require Import List Arith ZArith Reals Bool.
 From EasyML Require Import Base.Sx Model.Num Model.Tape Model.AD Model.Forward Spec.FormalD
-  Proofs.C04P Proofs.C04R Proofs.C04RI Proofs.C05P Proofs.C05X Proofs.C05XI.
+  Proofs.C04P Proofs.C04R Proofs.C04RI Proofs.C04RZ Proofs.C05P Proofs.C05X Proofs.C05XI Proofs.C05XZ.
 Import ListNotations.
 
 (* the number component of every trace is the same computation on plain numbers *)
@@ -85,6 +89,16 @@ Theorem C05_forward_mode_is_true_derivative_ipow : forall prog i x0 out,
                    (tderivative (gett Rops_i (trun Rops_i i prog) out)).
 Proof. exact forward_mode_is_true_derivative_i. Qed.
 
+(* every integer power at any base without a pole (see Properties/C04.v, Proofs/C04RZ.v): over `Rops_z`
+   (zpow x z = powerRZ x z for an integer z) the derivative component is the true derivative inside
+   `dom_z`, which admits trace ^ number and trace ^ constant at a negative base for any integer
+   exponent (x^(-2) at x = -3) and at a zero base for natural exponents *)
+Theorem C05_forward_mode_is_true_derivative_zpow : forall prog i x0 out,
+  nth_error prog i = Some (IVar x0) -> dom_z prog ->
+  derivable_pt_lim (fun t => tnumber (gett Rops_z (trun Rops_z i (set_var prog i t)) out)) x0
+                   (tderivative (gett Rops_z (trun Rops_z i prog) out)).
+Proof. exact forward_mode_is_true_derivative_z. Qed.
+
 (* non-vacuity: the reals are a field instance; (x / y) * x + 7 / y at x = 2, y = 3 has non-zero
    denominators, lies in the domain, and seeding x gives 2x/y = 4/3, seeding y gives
    -(x^2 + 7)/y^2 = -11/9 *)
@@ -111,3 +125,4 @@ Print Assumptions C05_forward_mode_is_true_derivative.
 Print Assumptions C05_gradient_by_seeding.
 Print Assumptions C05_independent_zero.
 Print Assumptions C05_forward_mode_is_true_derivative_ipow.
+Print Assumptions C05_forward_mode_is_true_derivative_zpow.
